@@ -109,3 +109,22 @@ func refScalarInRange(b []byte) bool {
 	}
 	return bAnd(lt, nz)
 }
+
+// the standard G2 generator in the compressed ZCash format that bls.go cites (x.c1 || x.c0, flag bits 100)
+var zcashG2Generator = []byte{
+	0x93, 0xe0, 0x2b, 0x60, 0x52, 0x71, 0x9f, 0x60, 0x7d, 0xac, 0xd3, 0xa0, 0x88, 0x27, 0x4f, 0x65, 0x59, 0x6b, 0xd0, 0xd0, 0x99, 0x20, 0xb6, 0x1a,
+	0xb5, 0xda, 0x61, 0xbb, 0xdc, 0x7f, 0x50, 0x49, 0x33, 0x4c, 0xf1, 0x12, 0x13, 0x94, 0x5d, 0x57, 0xe5, 0xac, 0x7d, 0x05, 0x5d, 0x04, 0x2b, 0x7e,
+	0x02, 0x4a, 0xa2, 0xb2, 0xf0, 0x8f, 0x0a, 0x91, 0x26, 0x08, 0x05, 0x27, 0x2d, 0xc5, 0x10, 0x51, 0xc6, 0xe4, 0x7a, 0xd4, 0xfa, 0x40, 0x3b, 0x02,
+	0xb4, 0x51, 0x0b, 0x64, 0x7a, 0xe3, 0xd1, 0x77, 0x0b, 0xac, 0x03, 0x26, 0xa8, 0x05, 0xbb, 0xef, 0xd4, 0x80, 0x56, 0xc8, 0xc1, 0x21, 0xbd, 0xb8}
+
+// zzC05_zcash_g2: the public key of the private key 1 is the G2 generator; its encoding is the ZCash compressed
+// encoding the documentation cites, and that encoding decodes to it
+func zzC05_zcash_g2() {
+	one := make([]byte, 32)
+	one[31] = 1
+	sk, err := DecodePrivateKey(BLSBLS12381, one)
+	verifAssert(err == nil, "private key 1 decodes")
+	got := sk.PublicKey().Encode()
+	assertEqBytes(got, zcashG2Generator, "Encode(g2) is the ZCash compressed encoding of the standard G2 generator (x.c1 || x.c0)")
+	verifReach("zcash g2")
+}
